@@ -177,6 +177,53 @@ theorem readLoop_framed_aux (out marker rc : Str)
       rw [tryParse_prefix out marker rc (acc ++ ch) rest.flatten hflat hne' hne hm hr]
       exact ih (acc ++ ch) hrest (fun c hc => hall c (List.mem_cons_of_mem _ hc)) hflat
 
+theorem isPrefixOf_append_split (pat a b : Str) (h : pat.isPrefixOf (a ++ b) = true) (hlen : pat.length ≤ a.length) :
+    pat.isPrefixOf a = true := by
+  rw [List.isPrefixOf_iff_prefix] at h ⊢
+  obtain ⟨t, ht⟩ := h
+  -- pat ++ t = a ++ b, |pat| ≤ |a|  ⇒ pat is a prefix of a
+  have := List.append_eq_append_iff.mp ht
+  rcases this with ⟨c, hc1, _⟩ | ⟨c, hc1, _⟩
+  · exact ⟨c, hc1.symm⟩
+  · have : c = [] := by
+      have hl := congrArg List.length hc1
+      simp at hl
+      exact List.eq_nil_of_length_eq_zero (by omega)
+    subst this
+    simp at hc1
+    exact ⟨[], by simp [hc1]⟩
+
+/-- **fresh markers are framable**: if the marker contains no `:` and `marker:` does not occur inside the output, then
+    `marker:` does not occur anywhere before its own position in the framed answer -/
+theorem noEarly_of_fresh (out marker rc : Str) (hcolon : ∀ c ∈ marker, c ≠ ':')
+    (hfresh : ∀ p, (marker ++ [':']).isPrefixOf (out.drop p) = false) :
+    NoEarly (marker ++ [':']) (framed out marker rc) out.length := by
+  intro p hp
+  rw [framed_eq]
+  rw [List.drop_append_of_le_length (by omega)]
+  cases h : (marker ++ [':']).isPrefixOf (out.drop p ++ (marker ++ [':'] ++ (rc ++ ['\n']))) with
+  | false => rfl
+  | true =>
+    exfalso
+    -- either the occurrence fits inside `out` (excluded by freshness) or its `:` falls inside the marker
+    by_cases hfit : (marker ++ [':']).length ≤ (out.drop p).length
+    · have := isPrefixOf_append_split _ _ _ h hfit
+      rw [hfresh p] at this; cases this
+    · rw [List.isPrefixOf_iff_prefix] at h
+      obtain ⟨t, ht⟩ := h
+      have hl : (out.drop p).length < marker.length + 1 := by simpa using hfit
+      have hpos : 0 < (out.drop p).length := by simp [List.length_drop]; omega
+      -- compare the character at index |marker| on both sides: `:` on the left, a marker character on the right
+      have hidx : marker.length - (out.drop p).length < marker.length := by omega
+      have e1 := congrArg (fun l => l[marker.length]?) ht
+      rw [List.getElem?_append_left (by simp), List.getElem?_append_right (by simp)] at e1
+      simp only [Nat.sub_self, List.getElem?_cons_zero] at e1
+      rw [List.getElem?_append_right (by omega), List.append_assoc, List.getElem?_append_left (by omega)] at e1
+      have hmem : ':' ∈ marker := by
+        have := e1.symm
+        exact List.mem_of_getElem? this
+      exact hcolon ':' hmem rfl
+
 /-! ### chunkings -/
 
 theorem chunkBy_flatten : ∀ (cuts : List Nat) (s : Str), (chunkBy cuts s).flatten = s := by
